@@ -28,6 +28,7 @@ package traceroute
 //@ ensures[C08.sack.timeouts] ret1 == nil ==> ret0.HandshakeTimeout == timeout && ret0.ParallelParams.TracerouteTimeout == timeout && int(ret0.ParallelParams.PollFrequency) == 100000000 && int(ret0.ParallelParams.SendDelay) == 10000000
 
 //@ func runTracerouteOnce
+//@ boundary
 //@ safety C19 C10 C20
 //@ ensures[ghost.mono]      sendN >= old(sendN)
 //@ requires[pre.ctx]        ctx != nil && sendN >= 0
@@ -42,6 +43,7 @@ package traceroute
 //@ ensures[C19.once.method] ret1 == nil && params.Protocol == "tcp" ==> params.TCPMethod == "" || params.TCPMethod == TCPConfigSYN || params.TCPMethod == TCPConfigSACK || params.TCPMethod == TCPConfigSYNSocket || params.TCPMethod == TCPConfigPreferSACK
 
 //@ func runE2eProbeOnce
+//@ boundary
 //@ safety C20 C10 C15
 //@ requires[pre.ctx]        ctx != nil && sendN >= 0
 //@ ensures[ghost.mono]      sendN >= old(sendN)
@@ -89,6 +91,7 @@ package traceroute
 // goroutine has made its one contribution, so the counters equal the number of goroutines started.
 
 //@ func (Traceroute).runTracerouteMulti
+//@ boundary
 //@ safety C15 C10 C14
 //@ ghost runsDone Int = 0
 //@ ghost e2eDone Int = 0
